@@ -713,6 +713,20 @@ func TestC17HandlerFormat(t *testing.T) {
 			if r := e.Deliver(wider); r.OK() {
 				rt.Fatalf("C17 violated: a claim for %s was accepted with the proof of a withdrawal of %d (the amount is committed as a 64-bit number)", wider.Amount, tu.Amount)
 			}
+			// the same claim under another version byte / block hash does not reproduce the stored output root - whether
+			// or not other claims against this output have been paid before
+			for _, field := range []string{"version", "last_block_hash"} {
+				wrong := claimMsg(sub.Str, tu, o, outIdx, i)
+				if field == "version" {
+					wrong.Version = []byte{wrong.Version[0] ^ byte(1<<uint(rapid.IntRange(0, 7).Draw(rt, "vbit")))}
+				} else {
+					wrong.LastBlockHash = append([]byte{}, wrong.LastBlockHash...)
+					wrong.LastBlockHash[rapid.IntRange(0, 31).Draw(rt, "hbyte")] ^= 0x40
+				}
+				if r := e.Deliver(wrong); r.OK() {
+					rt.Fatalf("C17 violated: a claim with a changed %s was accepted (leaf %d of %d, %d claims paid before): sha3(version | storage_root | last_block_hash) is not the stored output root", field, i, n, i)
+				}
+			}
 			if r := inSimulation(wider); r.OK() {
 				rt.Fatalf("C17 violated: in simulation mode a claim for %s was accepted with the proof of a withdrawal of %d", wider.Amount, tu.Amount)
 			}
